@@ -10,7 +10,7 @@ EVIDENCE = dict(
          "AllOrNothing (contents change only by a commit installing the working copy) and OwnedWhenIdle. Real Pattern "
          "objects (shapes up to 3x3 exhaustively for failure positions, random beyond; attached and unattached) are "
          "edited through set_via_fn and set_via_gen with a failure injected at every cell position / every yield index, "
-         "partial and repeated yields, generators that edit the working array's own notes, sequences of 1-4 successive edits, and a first edit on a newly constructed pattern nothing has looked at yet; the supplied callable logs the contents it "
+         "partial and repeated yields, generators that edit the working array's own notes or put notes into it without yielding (also yielding nothing at all), sixteen kinds of exceptions, sequences of 1-4 successive edits, and a first edit on a newly constructed pattern nothing has looked at yet; the supplied callable logs the contents it "
          "observes at each invocation; Trace_RVBulk validates one event per model action. non-trivial = the edit "
          "supplies a note different from the cell's previous content or fails.",
     explanation="fault_sequences: a failure at each cell/yield index; histories: successive edits on the same pattern")
@@ -24,7 +24,8 @@ class BoomBase(BaseException):
     pass
 
 
-EXC_KINDS = [Boom, StopIteration, KeyError, BoomBase, GeneratorExit, RuntimeError]
+EXC_KINDS = [Boom, StopIteration, KeyError, BoomBase, GeneratorExit, RuntimeError, IndexError, ValueError, TypeError, AttributeError,
+             ZeroDivisionError, OSError, AssertionError, LookupError, MemoryError, KeyboardInterrupt]
 
 
 def cell_of(n):
@@ -61,6 +62,7 @@ def run_history(api, rnd, tid, lines, tracks, attached, edits, prefill, fresh=Fa
         exc = ed.get("exc", Boom)
         reuse = ed.get("reuse", ())          # positions (indices into calls) where the callable hands back an EXISTING note object
         inplace = ed.get("inplace", ())      # positions where the generator edits the note found in the WORKING array and yields it
+        direct = ed.get("direct", ())        # positions where the generator puts the note into the working array itself, yielding nothing
 
         def mk(c):
             return api.Note(note=c[0], vel=c[1], module=c[2], ctl=c[3], val=c[4])
@@ -89,6 +91,10 @@ def run_history(api, rnd, tid, lines, tracks, attached, edits, prefill, fresh=Fa
                             src = p.data[0][0]
                             ev.append(dict({"op": "cell", "k": k, "note": cell_of(src)}, **seen(p)))
                             yield (k - 1) // tracks, (k - 1) % tracks, src
+                            continue
+                        if i in direct:
+                            ev.append(dict({"op": "cell", "k": k, "note": c}, **seen(p)))
+                            new[(k - 1) // tracks][(k - 1) % tracks] = mk(c)
                             continue
                         n_ = new[(k - 1) // tracks][(k - 1) % tracks]
                         # "possible, but discouraged": change the working array's own note object (not when an earlier edit of
@@ -165,6 +171,8 @@ def run(ctx):
             d["reuse"] = set(rnd.sample(range(len(notes)), rnd.randrange(0, len(notes) + 1))) if notes else set()
         elif setter == "gen" and rnd.random() < 0.5:
             d["inplace"] = set(rnd.sample(range(len(notes)), rnd.randrange(0, len(notes) + 1))) if notes else set()
+        elif setter == "gen" and rnd.random() < 0.6:      # direct edits of the working array; one time in three nothing is yielded at all
+            d["direct"] = set(range(len(notes))) if rnd.random() < 0.34 else set(rnd.sample(range(len(notes)), rnd.randrange(0, len(notes) + 1))) if notes else set()
         return d
     traces = []
     shapes = [(1, 1), (1, 2), (2, 1), (2, 2), (3, 2), (2, 3), (3, 3)]
